@@ -8,7 +8,7 @@ import os
 import runpy
 import sys
 
-from harness import tlc, par
+from harness import core, tlc, par
 from harness.materialize import num
 from harness.dsreplay import quiet, exc_site, close
 from harness.checks import c09
@@ -174,7 +174,7 @@ def _check_chunk(jobs):
             sys.argv = ["text2nc", tpath, out]
             try:
                 with quiet():
-                    runpy.run_path("/repo/scripts/text2nc.py", run_name="__main__")
+                    runpy.run_path(os.path.join(core.REPO, "scripts", "text2nc.py"), run_name="__main__")
             finally:
                 sys.argv = old
             n += 1
